@@ -90,6 +90,10 @@ WEv(w) ==
 TimerEv == IsA("obs.timer_fire") /\ Same /\ Adv
 
 EndOk == /\ SnapOk
+         \* "exit cleanup runs once": the cleanup block of set_status ran as often as the specification elected a
+         \* process to run it (NoDoubleCleanup: at most once); counted by the harness over the whole run, so that a
+         \* repeated run is a rejection in lenient mode too
+         /\ Ev.ncleanup <= nElect /\ (XDone => Ev.ncleanup = nElect)
          /\ (XDone => \A w \in Waiters : wpc[w] \notin {"parked", "woken", "checked", "created", "start", "jwait"})
          /\ (xpc # "run" => XDone)
          \* engine T: at quiescence the (live) supervisor has handled the terminal event that was sent to it
